@@ -261,6 +261,65 @@ impl Property for C15 {
                 obs.expect((l2 - total).abs() <= tol, "Length::length(LineString)|wrong", || format!("{l2} vs {total}; {}", ctx()));
             }
         }
+        // ---------------- densify in the geographic metric spaces (the trait is generic over the metric): the same points read as
+        // longitude / latitude; no segment longer than the maximum in THAT metric, original vertices kept in order, the Rect
+        // form equal to the form of its polygon, total length unchanged
+        if pts.len() >= 2 && pts.iter().all(|p| p.0.is_finite() && p.1.is_finite() && p.0.abs() <= 1000.0 && p.1.abs() <= 1000.0) && c.ratio.is_finite() && (c.max.to_bits() >> 5) % 4 == 0 {
+            use geo::{Distance, Geodesic, Haversine, Length, Rhumb};
+            let ll: Vec<geo::Coord<f64>> = pts.iter().map(|p| geo::Coord { x: p.0 * 0.17, y: p.1 * 0.08 }).collect();
+            let frac = 0.02 + 0.5 * (c.ratio.abs() % 1.0);
+            macro_rules! geo_densify {
+                ($space:expr, $name:expr) => {{
+                    let r = guard(std::panic::AssertUnwindSafe(|| {
+                        let mut o = Obs::new();
+                        let d = |a: geo::Coord<f64>, b: geo::Coord<f64>| $space.distance(Point(a), Point(b));
+                        let ls = LineString::new(ll.clone());
+                        let total = $space.length(&ls);
+                        if !(total > 1.0) || !total.is_finite() {
+                            return o;
+                        }
+                        let maxd = total * frac;
+                        let tol = 1e-3 + 1e-9 * total;
+                        let check = |inp: &LineString<f64>, out: &LineString<f64>, what: &str, o: &mut Obs| {
+                            let gap = out.0.windows(2).map(|w| d(w[0], w[1])).fold(0.0, f64::max);
+                            o.expect(gap <= maxd * (1.0 + 1e-9) + tol, &format!("densify({})|{what}|segment-longer-than-max", $name), || format!("largest {gap} > {maxd}; in {:?}", inp.0));
+                            // original vertices, in order
+                            let mut k = 0;
+                            for q in &out.0 {
+                                if k < inp.0.len() && *q == inp.0[k] {
+                                    k += 1;
+                                }
+                            }
+                            o.expect(k == inp.0.len(), &format!("densify({})|{what}|original-vertex-lost", $name), || format!("in {:?} out {:?}", inp.0, out.0));
+                            let (l0, l1) = ($space.length(inp), $space.length(out));
+                            o.expect((l0 - l1).abs() <= 1e-6 * l0 + tol, &format!("densify({})|{what}|length-changed", $name), || format!("{l0} -> {l1}; in {:?}", inp.0));
+                        };
+                        let out = $space.densify(&ls, maxd);
+                        check(&ls, &out, "LineString", &mut o);
+                        let rc = Rect::new(ll[0], ll[1]);
+                        let (po, ro) = ($space.densify(&rc.to_polygon(), maxd), $space.densify(&rc, maxd));
+                        o.expect(po == ro, &format!("densify({})|Rect|differs-from-its-polygon", $name), || format!("{:?} vs {:?}", ro, po));
+                        check(rc.to_polygon().exterior(), ro.exterior(), "Rect", &mut o);
+                        if ll.len() >= 3 {
+                            let tr = Triangle::new(ll[0], ll[1], ll[2]);
+                            let to = $space.densify(&tr, maxd);
+                            check(tr.to_polygon().exterior(), to.exterior(), "Triangle", &mut o);
+                        }
+                        o
+                    }));
+                    match r {
+                        Ok(o) => { obs.comparisons += o.comparisons; obs.failures.extend(o.failures); }
+                        Err(p) => obs.fail(format!("densify({})|panic|{}", $name, p.site()), format!("{} {}", p, ctx())),
+                    }
+                }};
+            }
+            match c.kind % 3 {
+                0 => geo_densify!(Haversine, "Haversine"),
+                1 => geo_densify!(Geodesic, "Geodesic"),
+                _ => geo_densify!(Rhumb, "Rhumb"),
+            }
+            obs.label("densify:geographic");
+        }
         // ---------------- densify
         let rings_in: Vec<Vec<P>>;
         let rings_out: Vec<Vec<P>>;
